@@ -75,6 +75,32 @@ theorem C06_linear_mid (indef : Int) {q : ℚ} {mn mx : Int} (hmn : |mn| ≤ 2 ^
 example : kTemp 40 < (45000 : ℚ) ∧ (45000 : ℚ) < kTemp 60 := by
   rw [kTemp_exact (by norm_num), kTemp_exact (by norm_num)]; norm_num
 
+/-- Agreement with the documented function: for realistic temperatures (`|min|, |max| ≤ 2^42` °C,
+    `min·1000 < q < max·1000`) the value differs from the exact
+    `255·(q − 1000·min)/(1000·(max − min))` by less than `1 + 2^-40` — the `1` is the truncation
+    `int(·)`, the rest bounds all four float64 roundings. (The task suggested `|min| ≤ 2^50`; beyond
+    `2^43` the product `float64(min)*1000` is itself rounded, so the bound is stated for `2^42`.) -/
+theorem C06_linear_close (indef : Int) {q : ℚ} {mn mx : Int} (hmn : |mn| ≤ 2 ^ 42)
+    (hmx : |mx| ≤ 2 ^ 42) (h1 : (mn : ℚ) * 1000 < q) (h2 : q < (mx : ℚ) * 1000) :
+    |((linMinMax indef (fin q) mn mx : Int) : ℚ)
+      - 255 * (q - 1000 * mn) / (1000 * ((mx : ℚ) - mn))| < 1 + 1 / 2 ^ 40 := by
+  have e1 := kTemp_exact (n := mn) (hmn.trans (by norm_num))
+  have e2 := kTemp_exact (n := mx) (hmx.trans (by norm_num))
+  have hv := linMinMax_mid indef (q := q) (mn := mn) (mx := mx) (hmn.trans (by norm_num))
+    (hmx.trans (by norm_num)) (by rw [e1]; exact h1) (by rw [e2]; exact h2)
+  rw [e1, e2] at hv
+  rw [hv]
+  have hb := linMid_bounds (q := q) (m := (mn : ℚ) * 1000) (X := (mx : ℚ) * 1000) h1.le h2.le
+  have ht := truncRat_le_self hb.1
+  have hc := abs_le.mp (linMid_close hmn hmx h1 h2)
+  have : (1 : ℚ) / 2 ^ 42 < 1 / 2 ^ 40 := by norm_num
+  rw [abs_lt]
+  constructor <;> linarith [ht.1, ht.2, hc.1, hc.2]
+
+example : |((linMinMax (-2 ^ 63) (fin 45000) 40 60 : Int) : ℚ)
+    - 255 * (45000 - 1000 * (40 : Int)) / (1000 * (((60 : Int) : ℚ) - (40 : Int)))| < 1 + 1 / 2 ^ 40 :=
+  C06_linear_close _ (by norm_num) (by norm_num) (by norm_num) (by norm_num)
+
 /-- **Dependency on C08**: with a NaN average both guards are false, the ratio is NaN and the
     curve returns the implementation-defined `int(NaN)` (amd64: `-2^63`) — for any `min`, `max`. -/
 theorem C06_linear_nan (indef : Int) (mn mx : Int) : linMinMax indef nan mn mx = indef :=
@@ -163,6 +189,24 @@ theorem C06_steps_outside (indef : Int) {x : Int} {y : ℚ} {rest : List (Int ×
 
 example : linSteps (-2 ^ 63) (inf false) (toSteps exSteps) = .ok (roundRat 255) :=
   (C06_steps_outside _ exSteps_ok.1 exSteps_ok.2).2.2.2 rfl
+
+/-- Between two adjacent steps with integer speeds `a`, `b` (`k ≤ avg/1000 < k'`) the value lies
+    between them, in whichever order they are. -/
+theorem C06_steps_between (indef : Int) (l1 l2 : List (Int × ℚ)) (k k' a b : Int)
+    (hb : ∀ p ∈ l1 ++ (k, (a : ℚ)) :: (k', (b : ℚ)) :: l2,
+      |p.1| ≤ 2 ^ 50 ∧ Rep64 p.2 ∧ 0 ≤ p.2 ∧ p.2 ≤ 255)
+    (hkeys : (l1 ++ (k, (a : ℚ)) :: (k', (b : ℚ)) :: l2).Pairwise (fun a b => a.1 < b.1))
+    {avg : F64} {q : ℚ} (hq : avg / ofInt 1000 = fin q) (hq1 : (k : ℚ) ≤ q) (hq2 : q < k') :
+    ∃ w, linSteps indef avg (toSteps (l1 ++ (k, (a : ℚ)) :: (k', (b : ℚ)) :: l2)) = .ok w ∧
+      min a b ≤ w ∧ w ≤ max a b :=
+  linSteps_between_int indef l1 l2 k k' a b (stepsOK_of hb hkeys) hq hq1 hq2
+
+example : ∃ w, linSteps (-2 ^ 63) (fin ((45 * 1000 : Int) : ℚ))
+      (toSteps ([] ++ (40, ((0 : Int) : ℚ)) :: (50, ((100 : Int) : ℚ)) :: [(60, 255)])) = .ok w ∧
+      min 0 100 ≤ w ∧ w ≤ max 0 100 :=
+  C06_steps_between _ [] [(60, 255)] 40 50 0 100
+    (by simpa [exSteps] using exSteps_ok.1) (by simp)
+    (div1000_exact (by norm_num)) (by norm_num) (by norm_num)
 
 /-- An empty (non-nil) step map makes the Go code index `xValues[-1]`: panic (subject of C11). -/
 theorem C06_steps_empty (indef : Int) (avg : F64) :
@@ -427,10 +471,12 @@ end Fan2go
 #print axioms Fan2go.C06_linear_ends
 #print axioms Fan2go.C06_linear_ends_exact
 #print axioms Fan2go.C06_linear_mid
+#print axioms Fan2go.C06_linear_close
 #print axioms Fan2go.C06_linear_nan
 #print axioms Fan2go.C06_steps_range
 #print axioms Fan2go.C06_steps_at_knots
 #print axioms Fan2go.C06_steps_outside
+#print axioms Fan2go.C06_steps_between
 #print axioms Fan2go.C06_steps_empty
 #print axioms Fan2go.C06_fn_sum
 #print axioms Fan2go.C06_fn_diff
